@@ -34,7 +34,7 @@ def main():
     subprocess.check_call(['git', '-C', '/repo', 'worktree', 'add', '-q', '--detach', wt, 'HEAD'])
     alarms = []
     try:
-        rc, out = sh(['git', '-C', wt, 'apply', '--whitespace=nowarn', a.diff])
+        rc, out = sh(['git', '-C', wt, 'apply', '--3way', '--whitespace=nowarn', a.diff])
         if rc != 0:
             print('patch does not apply', out[-300:])
             return 2
